@@ -66,6 +66,16 @@ func TestC18(t *testing.T) {
 			}
 		}
 	}
+	// a plugin is killed through a client that had been reattached to it for a while (25 s)
+	for _, proto := range []string{"netrpc", "grpc"} {
+		cells = append(cells, Cell{
+			Name:     fmt.Sprintf("%s mux=false tls=none launch=cmd history=[] killed through a client that had been reattached for 25 s", proto),
+			Plugin:   PluginConf{CookieKey: cookieKey, CookieValue: cookieVal, Legacy: 1, LegacyProto: proto, GRPCServer: true, TLS: "none", ExitMarker: "auto"},
+			Host:     HostConf{Allowed: []string{"netrpc", "grpc"}, TLS: "none", Launch: "cmd", Legacy: 1, SkipHostEnv: true},
+			Ops:      []string{"new", "start", "client", "dispense", "reattach:0", "start", "client", "dispense", "sleep:25000", "kill:1", "waitexit:0", "kill:0"},
+			LeakWait: 7000,
+		})
+	}
 	// two plugins behind custom runners at once, killed in either order; the application uses one UnixSocketConfig value
 	// for both (shared) or one each
 	for _, proto := range []string{"netrpc", "grpc"} {
@@ -123,6 +133,13 @@ func TestC18(t *testing.T) {
 		}
 		if !r.ExitMarker {
 			bad("L", "plugin did not exit gracefully (its deferred cleanup never ran)")
+		}
+		for _, o := range r.Ops {
+			// the plugins of these cells exit within milliseconds of the request; a Kill that is still waiting many seconds
+			// later is waiting for one of the client's own goroutines to notice
+			if strings.HasPrefix(o.Op, "kill") && o.Ms > 8000 {
+				bad("L", "%s returned only after %d ms although the plugin exits at once: goroutines of the client outlived the plugin by that long", o.Op, o.Ms)
+			}
 		}
 		if r.PluginAlive {
 			bad("L", "plugin process still alive after Kill")
